@@ -279,6 +279,21 @@ impl System for RkSys {
 					return Step::Violation(Failure::new("Renko/output/iterator-nth", format!("nth({k})")));
 				}
 			}
+			// the OHLCV view describes the whole step: it must not change while the bricks are being drawn
+			{
+				use yata::core::OHLCV;
+				fn view<T: yata::core::OHLCV>(o: &T) -> [u64; 5] {
+					[o.open(), o.high(), o.low(), o.close(), o.volume()].map(|x| (x as f64).to_bits())
+				}
+				let v0 = view(&it);
+				let mut j = it.clone();
+				for a in 0..len.min(6) {
+					j.next();
+					if view(&j) != v0 && len > 0 {
+						return Step::Violation(Failure::new("Renko/output/ohlcv-view-changes-while-iterating", format!("{len} bricks: after {} of them the view (open, high, low, close, volume) is {:?}, before {:?}", a + 1, [j.open(), j.high(), j.low(), j.close(), j.volume()], [it.open(), it.high(), it.low(), it.close(), it.volume()])));
+					}
+				}
+			}
 			// the same on a partially consumed output: a bricks taken with next(), then nth / skip / step_by /
 			// last / count / len on the rest
 			for a in 0..=len.min(4) {
